@@ -59,6 +59,73 @@ theorem events_only_in_collect {a : Arena} (h : Inv a) (op : Op)
   | false => rfl
   | true => exact absurd (mutator_silent h op hop).1 hne
 
+/-! ### Whole callback bodies, over whole histories -/
+
+private theorem push_alive (a : Arena) (p : Ptr) : (a.push p).alive = a.alive := by
+  unfold Arena.push; split <;> rfl
+
+private theorem stepBody_mut_alive (a : Arena) (fin : Bool) (op : Op) (hop : op.isMutator = true)
+    (ha : a.alive = true) : (a.stepBody fin op).1.alive = true := by
+  cases op <;> simp only [Op.isMutator] at hop <;> try cases hop
+  all_goals
+    unfold Arena.stepBody
+    simp only [Arena.bad]
+    repeat' split
+    all_goals first | exact ha | (simp only [push_alive]; exact ha) | skip
+
+/-- No operation a callback can perform makes the arena go away. -/
+theorem mutator_keeps_arena {a : Arena} (ha : a.alive = true) (op : Op) (hop : op.isMutator = true) :
+    (a.step op).1.alive = true := by
+  unfold Arena.step
+  simp only [ha, Bool.not_true, Bool.false_eq_true, if_false]
+  exact stepBody_mut_alive _ _ op hop rfl
+
+/-- **A whole callback body.**  Any sequence of mutator operations — of any length, entered in any
+    reachable state (phase, debt, queues: no hypothesis on them) — emits no `dropped` / `freed`
+    event, leaves the phase alone, keeps the arena, and keeps every allocation that existed at any
+    point before it allocated with its liveness. -/
+theorem callback_body_silent (body : List Op) : ∀ {a : Arena}, Inv a →
+    (∀ op, op ∈ body → op.isMutator = true) →
+    Inv (a.run body) ∧ (a.run body).ctx.log = a.ctx.log ∧ (a.run body).ctx.phase = a.ctx.phase ∧
+    ∀ i o, a.ctx.heap.get i = some o →
+      ∃ o', (a.run body).ctx.heap.get i = some o' ∧ o'.live = o.live := by
+  induction body with
+  | nil => intro a h _; exact ⟨h, rfl, rfl, fun i o ho => ⟨o, ho, rfl⟩⟩
+  | cons op body ih =>
+    intro a h hm
+    have hop := hm op (List.mem_cons_self ..)
+    have hal := mutator_keeps_arena h.alive op hop
+    have h1 := inv_step h op hal
+    have q := step_quiet h op hop
+    obtain ⟨hI, hlog, hph, hk⟩ := ih h1 (fun o ho => hm o (List.mem_cons_of_mem _ ho))
+    refine ⟨hI, hlog.trans q.log, hph.trans q.phase, ?_⟩
+    intro i o ho
+    obtain ⟨o1, ho1, hl1⟩ := q.keep i o ho
+    obtain ⟨o2, ho2, hl2⟩ := hk i o1 ho1
+    exact ⟨o2, ho2, hl2.trans hl1⟩
+
+private theorem run_append (l1 l2 : List Op) : ∀ a : Arena, a.run (l1 ++ l2) = (a.run l1).run l2 := by
+  induction l1 with
+  | nil => intro a; rfl
+  | cons op l1 ih => intro a; simp only [List.cons_append, Arena.run]; exact ih _
+
+/-- … for every history: a pointer the callback holds at *any point* of its body (`body₁` done,
+    `body₂` still to come) — a fresh allocation, a pointer read from the graph, a successful
+    upgrade — is allocated and undestructed when the body ends, and no event was emitted. -/
+theorem held_until_callback_returns (n : Nat) (pre body₁ body₂ : List Op)
+    (halive : ((Arena.new n).run (pre ++ body₁)).alive = true)
+    (hm : ∀ op, op ∈ body₂ → op.isMutator = true) (t : Nat)
+    (ht : Ptr.strong t ∈ ((Arena.new n).run (pre ++ body₁)).temps) :
+    ((Arena.new n).run (pre ++ body₁ ++ body₂)).alive = true ∧
+    ((Arena.new n).run (pre ++ body₁ ++ body₂)).ctx.log = ((Arena.new n).run (pre ++ body₁)).ctx.log ∧
+    ∃ o', ((Arena.new n).run (pre ++ body₁ ++ body₂)).ctx.heap.get t = some o' ∧ o'.live = true := by
+  have h := inv_run n (pre ++ body₁) halive
+  obtain ⟨o, ho, hl, _⟩ := h.cinv.tempsOK _ ht
+  rw [run_append (pre ++ body₁) body₂]
+  obtain ⟨hI, hlog, _, hk⟩ := callback_body_silent body₂ h hm
+  obtain ⟨o', ho', hl'⟩ := hk t o ho
+  exact ⟨hI.alive, hlog, o', ho', hl'.trans hl⟩
+
 /-! ### Non-vacuity -/
 
 /-- A callback entered mid-sweep with a huge artificial debt pending: it allocates, reads and
@@ -73,5 +140,11 @@ example : ((Arena.new 2).run demo).alive = true := by decide
 example : ((Arena.new 2).run demo).ctx.phase = .sweep := by decide
 example : ((Arena.new 2).run demo).ctx.log = [] := by decide
 example : ((Arena.new 2).run demo).ctx.rest = [1, 0] := by decide
+
+/-- The whole-body theorem applies to the demo: its last four operations (`enter`, `readRoot`,
+    `alloc`, `store`) form a callback body entered mid-sweep, and the fresh allocation `2`
+    made inside it is still held and valid at its end. -/
+example : ∀ op, op ∈ demo.drop (demo.length - 4) → op.isMutator = true := by decide
+example : Ptr.strong 2 ∈ ((Arena.new 2).run demo).temps := by decide
 
 end GcArena.C03
